@@ -21,6 +21,9 @@ RULE = ('cases = request paths built from the tokens {names present in the tree,
         'single "/", and through HttpWebServerPlugin._try_static_or_404 directly otherwise; the reply bytes (or the escaping '
         'exception) are compared with try_static_or_404 evaluated in Coq on the table of the real tree; os.path.normpath, '
         'open() and realpath containment are compared with normpath / kopen / resolve+inside separately. '
+        'Exhaustive part: quick = sampled paths of <= 3 tokens, thorough = ALL paths of <= 5 tokens over {/ . .. %2e ? a.txt sub} '
+        '(19 608 paths, direct call, and through the whole handler when they begin with a single "/") and all of <= 4 tokens over two '
+        'further 7-token alphabets ({/ . .. ? secret.txt static _evil}, {/ .. // %2e%2e a.txt static_evil x}). '
         'A case is non-trivial when a file was served (200) or when the request named an existing regular file '
         '(inside or outside the root) and was refused; distinct = distinct (root, path, min_compression_length, route) inputs')
 TRUSTED = ['posixpath.normpath, str.split/rstrip/startswith as transcribed in Net/Static.v (compared with CPython on every run)',
@@ -34,7 +37,7 @@ ASSUMPTIONS = ['static_server_dir is an absolute path (the default is); a relati
                'no symbolic links (or bind mounts) below or above the static directory: residue, lexical containment is what the code checks',
                'request paths are UTF-8 without NUL for the "every reply is 404 or the file" half; other paths raise before anything is sent (proved: C13_escapes)',
                'file content does not change between the run and the oracle reading it back; PATH_MAX = 4096, names <= 255 bytes']
-SHARD = 300
+SHARD = 400      # quick tier; generate() raises it for the thorough tier (fewer, larger files)
 
 logging.disable(logging.CRITICAL)
 
@@ -116,14 +119,31 @@ def coq_names(names):
 def coq_tree(tab):
     return C.coq_list(('mkdir %s' % coq_names(k)) if v is None else ('mkfile %s %s' % (coq_names(k), hx(v))) for k, v in tab)
 
-IMPORTS = ('From PM Require Import Lib.Bytes Lib.PyStr Net.Static Net.StaticSpec Net.StaticCases.\n'
-           'From Coq Require Import ZArith.\nOpen Scope N_scope.\n'
-           'Definition T0 : tree := %s.' % coq_tree(TREE))
-
-
 def agent_value():
     from proxy.common.constants import PROXY_AGENT_HEADER_VALUE
     return bytes(PROXY_AGENT_HEADER_VALUE)
+
+
+def expected_404():
+    return (b'HTTP/1.1 404 NOT FOUND\r\nServer: ' + agent_value() +
+            b'\r\nContent-Length: 0\r\nConnection: close\r\n\r\n')
+
+
+# constants shared by all cases of a shard (shorter case files): the tree, the roots, the agent string, the usual 404
+ROOT_CONST = {v: 'D_%s' % k for k, v in ROOTS.items()}
+IMPORTS = ('From PM Require Import Lib.Bytes Lib.PyStr Net.Static Net.StaticSpec Net.StaticCases.\n'
+           'From Coq Require Import ZArith.\nOpen Scope N_scope.\n'
+           'Definition T0 : tree := %s.\nDefinition AG : bytes := %s.\nDefinition R404 : bytes := %s.\n%s'
+           % (coq_tree(TREE), hx(agent_value()), hx(expected_404()),
+              '\n'.join('Definition %s : bytes := %s.' % (c, hx(r.encode())) for r, c in ROOT_CONST.items())))
+
+
+def coq_dir(root):
+    return ROOT_CONST.get(root) or hx(root.encode())
+
+
+def coq_reply(reply):
+    return 'R404' if reply == expected_404() else hx(reply)
 
 
 # ----------------------------------------------------------------- generation
@@ -157,7 +177,7 @@ def structured_path(rng):
         else: segs.append(rng.choice(names))
     p = '/' + '/'.join(segs)
     if rng.random() < 0.25:
-        p += '?' + rng.choice(['', 'x=1', '/../secret.txt', '../../a.txt', 'a=/&b=..', '?', '/a.txt', '%2e%2e/'])
+        p += '?' + rng.choice(['', 'x=1', '/../secret.txt', '../../a.txt', 'a=/&b=..', '?', '/a.txt', '%2e%2e/', 'a?b', '?/../secret.txt', 'x=1?y=2?', '??'])
     return p
 
 
@@ -191,15 +211,17 @@ def exhaustive(alphabet, maxlen):
 
 
 def generate(rng, tier):
+    global SHARD
     quick = tier != 'thorough'
+    SHARD = 400 if quick else 1000
     cases = []
     roots_main = ['plain'] * 6 + ['trail', 'dotted', 'dslash', 'tslash', 'parent', 'evil']
     # structured stream
-    for _ in range(300 if quick else 12000):
+    for _ in range(300 if quick else 6000):
         cases.append(mk(rng, rng.choice(roots_main), structured_path(rng),
                         mcl=rng.choice([20, 20, 20, 0, 11, 12, 21, 1000, -1])))
     # token stream (malformed: no leading slash, glued tokens, odd spellings)
-    for _ in range(160 if quick else 8000):
+    for _ in range(160 if quick else 4000):
         n = rng.choice([1, 2, 3, 3, 4, 4, 5, 6, 7])
         cases.append(mk(rng, rng.choice(roots_main), tok_path(rng, n, NAMES_IN + NAMES_OUT + BASE_NAMES)))
     # boundary stream
@@ -231,23 +253,26 @@ def generate(rng, tier):
             b.append(mk(rng, 'plain', p, mcl=m))
     cases.extend(b)
     # query stream: the same path with several queries must give the same file
-    for _ in range(40 if quick else 1500):
+    for _ in range(40 if quick else 600):
         base = structured_path(rng).split('?')[0]
-        qs = [None, '', rng.choice(['x', '/../secret.txt', '../a.txt', '?/..', 'a.txt', '%3f/../../'])]
+        if rng.random() < 0.5:      # half of them name a file that is served, so that a query leaking into the name shows
+            base = rng.choice(['/a.txt', '/sub/a.txt', '/index.html', '/sub/../a.txt', '/./b21.js', '/%2e%2e/a.txt',
+                               '/sub/deep/../../noext', '/../static/a.txt', '//data.bin'])
+        qs = [None, '', rng.choice(['x', '/../secret.txt', '../a.txt', 'a.txt', '%3f/../../']), rng.choice(['?', 'a?b', '?/..', 'x?/../secret.txt', '/?/'])]
         cases.append(dict(kind='query', root=rng.choice(roots_main), path=base.encode(),
                           queries=[None if q is None else q.encode() for q in qs], mcl=20, via='direct'))
     # pure-function streams: normpath / resolve+inside / open
-    for _ in range(120 if quick else 6000):
+    for _ in range(120 if quick else 2500):
         lead = rng.choice(['', '', '/', '/', '//', '///', '////', './', '../'])
         p = lead + tok_path(rng, rng.choice([0, 1, 2, 3, 4, 6, 8]), ['a', 'bc', 'a.txt', '.a', 'a.', '..a', 'ü'], 0.6)
         cases.append(dict(kind='norm', p=p.encode()))
-    for _ in range(80 if quick else 4000):
+    for _ in range(80 if quick else 1500):
         p = rng.choice(['', '/']) + tok_path(rng, rng.choice([1, 2, 3, 4, 5, 7]), NAMES_IN + NAMES_OUT + BASE_NAMES, 0.5)
         cases.append(dict(kind='open', p=(rng.choice([_BASE, _BASE + '/x', ROOTS['plain'], '', '/' + _BASE]) + p).encode()))
     # exhaustive enumeration (thorough): all paths of <= 5 tokens over 7-token alphabets
     if not quick:
         for ai, alpha in enumerate(ALPHABETS):
-            for p in exhaustive(alpha, 5):
+            for p in exhaustive(alpha, 5 if ai == 0 else 4):
                 pb = p.encode()
                 cases.append(dict(kind='static', root='plain', path=pb, mcl=20, via='direct', exh=ai))
                 if can_sim(pb) and ai == 0:
@@ -353,7 +378,7 @@ def run_impl(case):
 def coq_obs(res):
     if 'raised' in res:
         return '(ErrObs %d)' % res['raised']
-    return '(OkObs %s)' % hx(res['reply'])
+    return '(OkObs %s)' % coq_reply(res['reply'])
 
 
 def dedup(pairs):
@@ -367,7 +392,7 @@ def dedup(pairs):
 def static_parts(root, path, mcl, res):
     gl = C.coq_list('(%s, %s)' % (hx(a), C.coq_option(hx, b)) for a, b in dedup(res['guesslog']))
     zl = C.coq_list('(%s, %s)' % (hx(a), hx(b)) for a, b in dedup(res['gzlog']))
-    return dict(dir=hx(root.encode()), mcl='(%d)%%Z' % mcl, agent=hx(agent_value()), gl=gl, zl=zl,
+    return dict(dir=coq_dir(root), mcl='(%d)%%Z' % mcl, agent='AG', gl=gl, zl=zl,
                 path=hx(path))
 
 
@@ -400,7 +425,7 @@ def reply_terms(root, path, res):
     terms = []
     if b'\r\n\r\n' in reply:
         head, body = reply.split(b'\r\n\r\n', 1)
-        terms.append('CRead %s (Some (%s, %s))' % (hx(reply), coq_names(head.split(b'\r\n')), hx(body)))
+        terms.append('CRead %s (Some (%s, %s))' % (coq_reply(reply), coq_names(head.split(b'\r\n')), hx(body)))
     else:
         terms.append('CRead %s None' % hx(reply))
     if is200:
@@ -425,7 +450,7 @@ def coq_term(case, out):
             except UnicodeDecodeError:
                 return terms
             ins, _ = real_inside(root, p)
-            terms.append('CInside %s %s %s' % (hx(root.encode()), hx(p), C.coq_bool(ins)))
+            terms.append('CInside %s %s %s' % (coq_dir(root), hx(p), C.coq_bool(ins)))
         return terms
     if k == 'query':
         root = ROOTS[case['root']]
@@ -444,11 +469,6 @@ def coq_term(case, out):
 
 
 # ----------------------------------------------------------------- the property on the implementation
-def expected_404():
-    return (b'HTTP/1.1 404 NOT FOUND\r\nServer: ' + agent_value() +
-            b'\r\nContent-Length: 0\r\nConnection: close\r\n\r\n')
-
-
 def parse_reply(reply):
     """(status, headers list, decoded body) parsed by hand; None if not a well-formed response"""
     if b'\r\n\r\n' not in reply:
